@@ -23,4 +23,28 @@ theorem no_function_leaks_a_lock (n : String) (p : Prog) (hm : (n, p) ∈ Gen.Lo
     ∃ s, (o = .normal s ∨ o = .returned s) ∧ final s.held s.deferred = some [] :=
   safe_sound p (List.all_eq_true.mp every_function_is_safe (n, p) hm) o h
 
+/-- the functions in which something that may wait for another party — a channel send or receive outside of a `select`
+    with a default, a message or a call to a peer, a `Wait` — is done while a mutex is held: one, `endPoint.dispatch`,
+    which answers a call it cannot queue with `e.Send` under the handler mutex (the listed finding of C12: a peer that
+    does not read its answers holds up the dispatch) -/
+theorem what_waits_under_a_mutex :
+    Gen.Locks.fns.filterMap (fun f => if (acts f.2 {}).isEmpty then none else some f.1) =
+      ["bus/net/endpoint.go endPoint.dispatch"] ∧
+    (Gen.Locks.fns.all (fun f => (acts f.2 {}).all (· == 2))) = true := by decide
+
+/-- everywhere else, on every path, nothing that may wait is done under a mutex (the seeded changes C16j and C12n —
+    the read lock held across the push into the mailbox — are refused here) -/
+theorem elsewhere_nothing_waits_under_a_mutex (n : String) (p : Prog) (hm : (n, p) ∈ Gen.Locks.fns)
+    (hn : n ≠ "bus/net/endpoint.go endPoint.dispatch") (o : Out) (t : List Nat) (h : RunT p {} o t) : t = [] := by
+  have hs : safe p = true := List.all_eq_true.mp every_function_is_safe (n, p) hm
+  have ha : acts p {} = [] := by
+    cases hc : (acts p {}).isEmpty with
+    | true => exact List.isEmpty_iff.mp hc
+    | false =>
+      have hmem : n ∈ Gen.Locks.fns.filterMap (fun f => if (acts f.2 {}).isEmpty then none else some f.1) :=
+        List.mem_filterMap.mpr ⟨(n, p), hm, by simp [hc]⟩
+      rw [what_waits_under_a_mutex.1] at hmem
+      exact absurd (List.mem_singleton.mp hmem) hn
+  exact nothing_waits_under_a_mutex p hs ha o t h
+
 end QiVerif.Tie.Locks
